@@ -2944,6 +2944,10 @@ static Node *unary(Token **rest, Token *tok) {
   return postfix(rest, tok);
 }
 
+// True if the last struct or union specifier read had a member list
+// and no tag. Only such a specifier declares an anonymous member.
+static bool untagged_struct_spec;
+
 // struct-members = (declspec declarator (","  declarator)* ";")*
 static void struct_members(Token **rest, Token *tok, Type *ty) {
   Member head = {};
@@ -2952,9 +2956,9 @@ static void struct_members(Token **rest, Token *tok, Type *ty) {
 
   while (!equal(tok, "}")) {
     VarAttr attr = {};
-    bool has_tag = (equal(tok, "struct") || equal(tok, "union")) &&
-                   tok->next->kind == TK_IDENT;
+    untagged_struct_spec = false;
     Type *basety = declspec(&tok, tok, &attr);
+    bool is_untagged = untagged_struct_spec;
     bool first = true;
 
     // Anonymous struct member
@@ -2963,7 +2967,7 @@ static void struct_members(Token **rest, Token *tok, Type *ty) {
       // Only a specifier without a tag declares an anonymous member
       // (C11 6.7.2.1p13); 'struct T { ... };' or 'struct T;' inside a
       // struct declares the tag T and no member.
-      if (has_tag || basety->size < 0)
+      if (!is_untagged || basety->size < 0)
         continue;
 
       Member *mem = calloc(1, sizeof(Member));
@@ -3060,6 +3064,7 @@ static Type *struct_union_decl(Token **rest, Token *tok) {
 
   if (tag && !equal(tok, "{")) {
     *rest = tok;
+    untagged_struct_spec = false;
 
     // 'struct S;' declares a new type in the current scope even if a
     // tag S is visible from an enclosing one (C11 6.7.2.3p7).
@@ -3087,6 +3092,7 @@ static Type *struct_union_decl(Token **rest, Token *tok) {
   *rest = attribute_list(tok, ty);
   if (ty->size < 0)
     ty->size = 0;
+  untagged_struct_spec = !tag;
 
   if (tag) {
     // If this is a redefinition, overwrite a previous type.
